@@ -317,4 +317,46 @@ theorem getElem?_obj_middle (k k' : Nat) (pre post : List CItem) (x : CItem) (y 
       simp [hd] at h ⊢
       exact refsFrom_getElem?_obj k' post n i bs h
 
+/-! ### the two shapes of an accepted build -/
+
+/-- an accepted `buildSuper`: either no wildcard region (and the declared length, if any, is the sum), or
+    exactly one, a declared length that leaves a non-negative remainder, and the closed form of the result -/
+theorem buildSuper_ok_cases {a : Nat} {cs : List CItem} {len : Option Nat} {b : Built}
+    (h : buildSuper a cs len = .ok b) :
+    (wildFree cs = true ∧ (len = none ∨ len = some (lenSum cs)) ∧
+      b = ⟨refsFrom a cs, basesFrom a cs, lenSum cs, anonsFrom a cs, a + nucCount cs⟩) ∨
+    (∃ pre w post L, cs = pre ++ .nuc w :: post ∧ wildFree pre = true ∧ wildCount w = 1 ∧
+      wildFree post = true ∧ len = some L ∧ lenSum pre + lenSum post + fixedSum w ≤ L ∧
+      b = ⟨refsFrom a pre ++ ⟨anonName (a + nucCount pre + nucCount post), false, L - (lenSum pre + lenSum post), false⟩ ::
+              refsFrom (a + nucCount pre) post,
+           basesFrom a pre ++ ⟨anonName (a + nucCount pre + nucCount post), false, L - (lenSum pre + lenSum post)⟩ ::
+              basesFrom (a + nucCount pre) post,
+           L,
+           anonsFrom a pre ++ anonsFrom (a + nucCount pre) post ++
+             [mkAnon (a + nucCount pre + nucCount post) (L - (lenSum pre + lenSum post))
+                (expand (L - (lenSum pre + lenSum post) - fixedSum w) w)],
+           a + nucCount pre + nucCount post + 1⟩) := by
+  cases hf : buildFold cs { anon := a } with
+  | error e => simp [buildSuper, hf, bind, Except.bind] at h
+  | ok A' =>
+    rcases buildFold_ok_cases hf with hw | ⟨pre, w, post, rfl, hpre, hw, hpost, _⟩
+    · left
+      rw [buildSuper_wildFree hw] at h
+      split at h
+      · rename_i hl
+        simp only [Except.ok.injEq] at h
+        exact ⟨hw, hl, h.symm⟩
+      · simp at h
+    · right
+      cases len with
+      | none => rw [buildSuper_wild_none hpre hw hpost] at h; simp at h
+      | some L =>
+        rw [buildSuper_wild hpre hw hpost] at h
+        split at h
+        · simp at h
+        · split at h
+          · simp at h
+          · simp only [Except.ok.injEq] at h
+            exact ⟨pre, w, post, L, rfl, hpre, hw, hpost, rfl, by omega, h.symm⟩
+
 end Pepper.Comp
